@@ -56,7 +56,7 @@ ALL_PROPERTIES = ["ZeroSwapAtomic", "IdleSorted", "NumbersNeverReused"]
 
 DEFAULTS = {"N": 3, "Workers": 2, "Steps": 3, "MoreSteps": 0, "MaxPn": 9, "WSet": "W1", "ZeroSwap": True,
             "MaxRestarts": 0, "TrackFrac": False, "EngTypes": "OneEngine", "EngNeed": "OneNeed",
-            "LiteralOrd": False, "VaryInit": False, "MaxLevel": 100}
+            "LiteralOrd": False, "FormulaOrd": False, "VaryInit": False, "MaxLevel": 100}
 
 
 def cfg_text(consts, invariants=None, properties=None, spec="Spec"):
